@@ -160,13 +160,20 @@ class QFunction(QToken):
         name = string[:arg_start]
         # Parse arguments
         args = []
-        args_str = string[arg_start + 1 : arg_end]
+        args_str = string[arg_start + 1 : arg_end].strip()
         while args_str:
             (arg_t, arg), args_str = _parse_token(args_str, namespace)
-            comma = args_str.find(",")
-            if comma != -1:
-                args_str = args_str[comma + 1 :]
             args.append(arg_t.parse(arg, namespace))
+            # Arguments are separated by exactly one comma
+            args_str = args_str.strip()
+            if args_str:
+                if args_str[0] != ",":
+                    raise QueryParseException(
+                        "Expected ',' between function arguments"
+                    )
+                args_str = args_str[1:].strip()
+                if not args_str:
+                    raise QueryParseException("Function call has a trailing comma")
         return QFunction(name, args)
 
     @staticmethod
@@ -210,7 +217,7 @@ class QFunction(QToken):
             prev_char = char
         if to_consume != 0:
             return None, string
-        return string[:i], string[i + 1 :]
+        return string[:i], string[i:]
 
 
 class QDict(QToken):
@@ -275,7 +282,7 @@ class QDict(QToken):
             if to_consume == 0:
                 break
             prev_char = char
-        return string[:i], string[i + 1 :]
+        return string[:i], string[i:]
 
 
 class QList(QToken):
@@ -330,7 +337,7 @@ class QList(QToken):
             if to_consume == 0:
                 break
             prev_char = char
-        return string[:i], string[i + 1 :]
+        return string[:i], string[i:]
 
 
 qtypes: Sequence[Type[QToken]] = [QString, QInteger, QFunction, QDict, QList, QVariable]
